@@ -1091,6 +1091,19 @@ func (kcp *KCP) SetMtu(mtu int) int {
 		return -1
 	}
 
+	// segments already queued were cut for the current MSS and cannot be
+	// re-cut: an MTU they do not fit into cannot be honoured
+	for seg := range kcp.snd_queue.ForEach {
+		if len(seg.data) > mtu-IKCP_OVERHEAD {
+			return -1
+		}
+	}
+	for seg := range kcp.snd_buf.ForEach {
+		if len(seg.data) > mtu-IKCP_OVERHEAD {
+			return -1
+		}
+	}
+
 	kcp.mtu = uint32(mtu)
 	kcp.mss = kcp.mtu - IKCP_OVERHEAD
 	kcp.buffer = make([]byte, (mtu+IKCP_OVERHEAD)*3)
